@@ -13,7 +13,7 @@ from vakt.exceptions import InvalidPatternError
 MODULE = 'Props.C03'
 THEOREMS = ['Vakt.C03.scan_render', 'Vakt.C03.scan_complete', 'Vakt.C03.pieces_grammar', 'Vakt.C03.decomp_unique',
             'Vakt.C03.unbalanced_never', 'Vakt.C03.untagged_eq', 'Vakt.C03.elem_split',
-            'Vakt.C03.compile_cache_transparent', 'Vakt.C03.cache_history_independent',
+            'Vakt.C03.compile_cache_transparent', 'Vakt.C03.cache_history_independent', 'Vakt.C03.index_form_eq_scanner',
             'Vakt.Re.accepts_iff']
 FLOOR = {'quick': 3000, 'thorough': 50000}
 ASSUMPTIONS = ['segments outside the modelled regex subset (anchors, look-around, back-references, flags, possessive '
@@ -251,6 +251,41 @@ def run(ctx):
                 out.samples.append({'elements': elems, 'value': v, 'tags': st + et, 'impl': impl, 'model': m,
                                     'oracle': want, 'compiled': compile_regex(elems[0], st, et).pattern
                                     if py_pieces(elems[0], st, et) is not None else None})
+    # 2c. the index form: get_tag_indices against the model's tagIndices (Props.C03.index_form_eq_scanner ties it
+    #     to the scanner).  get_tag_indices is internal: a difference is a broken correspondence, not a failing input
+    try:
+        from vakt.parser import get_tag_indices
+    except Exception:
+        get_tag_indices = None
+        out.count('get_tag_indices:absent')
+    if get_tag_indices is not None and ctx.driver:
+        ilines, imeta = [], []
+        seen = set()
+        for elems, v, st, et, tag in cases:
+            for e in elems:
+                if (e, st, et) in seen or len(seen) >= ctx.budget(3000, 60000):
+                    continue
+                seen.add((e, st, et))
+                try:
+                    got = 'ok ' + ' '.join(str(x) for x in get_tag_indices(e, st, et))
+                except InvalidPatternError:
+                    got = 'unbalanced'
+                except Exception as ex:
+                    got = 'raised ' + type(ex).__name__
+                ilines.append('TAGIDX %d %d %s' % (ord(st), ord(et), proto.enc_str(e)))
+                imeta.append((e, st, et, got))
+        for line, (e, st, et, got), m in zip(ilines, imeta, ctx.driver.run(ilines)):
+            if m == 'bad-op':
+                raise Broken('driver rejected: %s' % line[:300])
+            out.traces += 1
+            out.count('tagidx:' + got.split(' ')[0])
+            if m.strip() != got.strip():
+                f = Failure('disagreement', {'element': e, 'stag': st, 'etag': et}, got, m,
+                            'get_tag_indices differs from the model of the index form', 'Vakt.C03.index_form_eq_scanner',
+                            line=line)
+                f.signature = 'model:tagidx'
+                f.weak = True
+                out.failures.append(f)
     # 3. one checker shared by policies with different tag pairs: the cache key must include the tags
     share_fail = _shared_checker_stream(ctx, out, rng)
     out.failures.extend(share_fail)
